@@ -167,6 +167,17 @@ func validateResponseHeader(headerName string, headerRef *openapi3.HeaderRef, in
 	var sm *openapi3.SerializationMethod
 	dec := &headerParamDecoder{header: input.Header}
 
+	if headerRef.Value.Schema == nil || headerRef.Value.Schema.Value == nil {
+		// a header described by `content` (or not described at all) has no schema to decode by: only its presence is checked
+		if _, found = input.Header[http.CanonicalHeaderKey(headerName)]; !found && headerRef.Value.Required {
+			return &ResponseError{
+				Input:  input,
+				Reason: fmt.Sprintf("response header %q missing", headerName),
+			}
+		}
+		return nil
+	}
+
 	if sm, err = headerRef.Value.SerializationMethod(); err != nil {
 		return &ResponseError{
 			Input:  input,
